@@ -262,3 +262,68 @@ Proof.
   - split; [apply rinv_init; assumption|]. split; [intros p []|]. split; [reflexivity|]. intros j _. reflexivity.
   - intro d. unfold Phi, Owed, spread_bal. simpl. destruct d; reflexivity.
 Qed.
+
+(* ---------- the conclusion ---------- *)
+Definition claim_of (d : bool) (rs : rstate) (p : position) : Z :=
+  match claimable_spread rs (ps_id p) with Some c => pr_sel d c | None => 0 end.
+
+Lemma claim_le_owed : forall rs p d, PI rs -> 0 < sc_of rs -> In p (s_pos (r_base rs)) -> claimable_spread rs (ps_id p) <> None ->
+  2 * (claim_of d rs p * sc_of rs * P18) <= 2 * owed d (r_rw rs) (cur_tick rs) p + P18.
+Proof.
+  intros rs p d [RI [RM [TOT FR]]] HSC Hp NN. pose proof RI as [I _]. pose proof P18_pos as HP.
+  unfold claim_of. destruct (claimable_spread rs (ps_id p)) as [c|] eqn:EC; [|congruence]. clear NN.
+  unfold claimable_spread in EC. rewrite (in_pos_get _ _ (inv_pos_sorted _ I) Hp) in EC. cbv beta iota in EC.
+  destruct (prepare_claimable_spread _ _ _ _ _ _) as [[w' c']|] eqn:E; [|discriminate EC]. inversion EC; subst c'. clear EC.
+  destruct (RM p Hp) as [r [R SH]].
+  assert (LP : forall q, In q (s_pos (r_base rs)) -> 0 < ps_liq q).
+  { intros q Hq. pose proof (inv_pos_ok _ I) as F. rewrite Forall_forall in F. destruct (F q Hq) as [_ [X _]]. exact X. }
+  assert (HT : 0 <= ac_total (rw_spread (r_rw rs))) by (rewrite TOT; apply zsum_nonneg; intros q Hq; pose proof (LP q Hq); lia).
+  destruct (prepare_claimable_spread_full _ _ _ _ _ _ _ _ _ E R HT HSC) as [_ [_ [_ [_ HD]]]].
+  destruct (HD d) as [G0 [C0 [CSc [per [_ [_ [_ D0]]]]]]]. cbv zeta in *.
+  unfold owed. rewrite R. unfold owedr. fold (cur_tick rs). change (p_tick (s_pool (r_base rs))) with (cur_tick rs) in *.
+  set (g := ins d (r_rw rs) (cur_tick rs) (ps_lower p) (ps_upper p) - dsel d (ar_snap r)) in *.
+  assert (S0 : 0 <= ar_shares r) by (rewrite SH; pose proof (LP p Hp); lia).
+  pose proof (d_mul_bounds g (ar_shares r) G0 S0) as MB.
+  set (m := d_mul g (ar_shares r)) in *. set (un := dsel d (ar_unclaimed r)) in *. set (gs := g * ar_shares r) in *.
+  set (tr := d_truncate_int (un + m)) in *. fold (sc_of rs) in CSc. set (sc := sc_of rs) in *. simpl snd. set (cc := pr_sel d c) in *. clear HD.
+  assert (cc * sc * P18 <= tr * P18 * P18) by nia.
+  clearbody gs m un tr cc sc. nia.
+Qed.
+
+Theorem claims_covered : forall rs d K, PI rs -> 0 < sc_of rs -> Phi d rs <= K * P18 ->
+  (forall p, In p (s_pos (r_base rs)) -> claimable_spread rs (ps_id p) <> None) ->
+  K + Z.of_nat (length (s_pos (r_base rs))) < 2 * sc_of rs ->
+  zsum (claim_of d rs) (s_pos (r_base rs)) <= spread_bal d rs.
+Proof.
+  intros rs d K HPI HSC HPhi HQ HK. pose proof P18_pos as HP.
+  assert (SUM : forall l, (forall p, In p l -> In p (s_pos (r_base rs))) ->
+            2 * (zsum (claim_of d rs) l * sc_of rs * P18) <= 2 * zsum (owed d (r_rw rs) (cur_tick rs)) l + Z.of_nat (length l) * P18).
+  { induction l as [|a l IH]; intro Hl; [simpl; lia|].
+    change (length (a :: l)) with (S (length l)). rewrite Nat2Z.inj_succ. simpl zsum.
+    pose proof (claim_le_owed rs a d HPI HSC (Hl a (or_introl eq_refl)) (HQ a (Hl a (or_introl eq_refl)))) as A.
+    assert (B : forall p, In p l -> In p (s_pos (r_base rs))) by (intros p X; apply Hl; right; exact X). specialize (IH B). nia. }
+  specialize (SUM _ (fun p X => X)). unfold Phi, Owed in HPhi.
+  set (C := zsum (claim_of d rs) (s_pos (r_base rs))) in *. set (B := spread_bal d rs) in *.
+  set (O := zsum (owed d (r_rw rs) (cur_tick rs)) (s_pos (r_base rs))) in *. set (n := Z.of_nat (length (s_pos (r_base rs)))) in *.
+  set (sc := sc_of rs) in *.
+  assert (X : 2 * sc * P18 * (C - B) <= (K + n) * P18) by (clearbody C B O n sc; nia).
+  assert (Y : 2 * sc * (C - B) <= K + n) by (clearbody C B O n sc; nia).
+  clearbody C B O n sc. nia.
+Qed.
+
+(* TOTAL_CLAIMABLE_LE_PAID (spread rewards): in every state reachable from a fresh pool, whatever the history, the claimable spread
+   rewards of all open positions together are covered by the spread-reward account *)
+Theorem total_claimable_le_paid : forall sp spf ssc isc users t ops d, 0 < sp -> 0 <= spf <= 500000000000000000 -> 0 < ssc ->
+  let rs0 := rinit sp spf ssc isc users t in
+  let rs := rrun rs0 ops in
+  (forall p, In p (s_pos (r_base rs)) -> claimable_spread rs (ps_id p) <> None) ->
+  hist_pcost rs0 ops + Z.of_nat (length (s_pos (r_base rs))) < 2 * ssc ->
+  zsum (claim_of d rs) (s_pos (r_base rs)) <= spread_bal d rs.
+Proof.
+  intros sp spf ssc isc users t ops d Hsp Hspf Hssc rs0 rs HQ HK.
+  destruct (PI_init sp spf ssc isc users t Hsp Hspf) as [P0 F0].
+  assert (SC0 : sc_of rs0 = ssc) by reflexivity.
+  destruct (paid_run ops rs0 P0 ltac:(rewrite SC0; exact Hssc)) as [A [B C]]. fold rs in A, B, C.
+  apply (claims_covered rs d (hist_pcost rs0 ops) A); [rewrite B, SC0; exact Hssc| |exact HQ|rewrite B, SC0; exact HK].
+  specialize (C d). pose proof (F0 d) as F0d. fold rs0 in F0d. rewrite F0d in C. lia.
+Qed.
